@@ -50,7 +50,39 @@ def body_classes():
         ("errors_two_with_data", J({"errors": [E_MIN, E_FULL], "data": DATA})),
         ("errors_one_data_null", J({"errors": [E_EXTRA], "data": None})),
         ("errors_with_extensions_key", J({"errors": [E_FULL], "extensions": {"t": 1}, "data": DATA})),
+    ] + lexical_classes()
+
+
+def lexical_classes():
+    """Single-point lexical deviations from well-formed bodies: what a strict JSON parser (the reference uses json.loads) must refuse,
+    and spellings it must accept.  Raw control characters inside string literals are the classic lenient-parser gap."""
+    out = []
+    for cname, ch in (("tab", b"\t"), ("lf", b"\n"), ("cr", b"\r"), ("nul", b"\x00"), ("us", b"\x1f")):
+        out.append((f"raw_{cname}_in_data_string", b'{"data": {"a": "x' + ch + b'y"}}'))
+        out.append((f"raw_{cname}_in_error_message", b'{"errors": [{"message": "x' + ch + b'y"}]}'))
+        out.append((f"raw_{cname}_in_extra_key", b'{"data": {"a": 1}, "extensions": {"k": "x' + ch + b'y"}}'))
+    out += [
+        ("escaped_controls_in_string", b'{"data": {"a": "x\\t\\n\\u0000y"}}'),
+        ("trailing_comma_object", b'{"data": {"a": 1},}'),
+        ("trailing_comma_array", b'{"errors": [{"message": "m"},]}'),
+        ("single_quotes", b"{'data': {'a': 1}}"),
+        ("unquoted_key", b'{data: {"a": 1}}'),
+        ("comment", b'{"data": {"a": 1} /* c */}'),
+        ("trailing_garbage", b'{"data": {"a": 1}} x'),
+        ("two_documents", b'{"data": {"a": 1}}{"data": {"a": 2}}'),
+        ("leading_bom", b"\xef\xbb\xbf" + b'{"data": {"a": 1}}'),
+        ("whitespace_padding", b' \n\t{"data": {"a": 1}}\r\n '),
+        ("duplicate_data_key", b'{"data": {"a": 1}, "data": {"a": 2}}'),
+        ("unicode_escapes", b'{"data": {"a": "\\u00e9\\ud83d\\ude00"}}'),
+        ("truncated", b'{"data": {"a": 1}'),
+        ("leading_zero_number", b'{"data": {"a": 01}}'),
     ]
+    return out
+
+
+RESPONSE_HEADERS = [("none", None), ("json", {"Content-Type": "application/json"}), ("json_charset", {"Content-Type": "application/json; charset=utf-8"}),
+                    ("graphql_response_json", {"Content-Type": "application/graphql-response+json"}), ("html", {"Content-Type": "text/html"})]
+HEADER_STATUSES = [200, 204, 299, 300, 404, 500]
 
 
 def reference(status, body):
@@ -125,18 +157,19 @@ def part_a(rep, statuses):
         _, _, is_async, is_ot = clients.BUNDLED[kind]
         for tv in (("none", "stub") if is_ot else ("none",)):
             c = clients.make_client(cls, is_async, lambda r: httpx.Response(500), **clients.tracer_kwargs(kind, tv))
-            for status in statuses:
-                for bname, body in bodies:
-                    resp = httpx.Response(status, content=body)
-                    ref = reference(status, body)
-                    obs = observe(lambda: c.get_data(resp), exc_mod)
-                    cells += 1
-                    outcomes.add((status_class(status), bname, ref[0]))
-                    why = compare(ref, obs, resp)
-                    if why:
-                        rep.violation("get_data_outcome", [f"client:{kind}", f"body:{bname}", f"status:{status_class(status)}"],
-                                      why, {"part": "get_data", "client": kind, "tracer": tv, "status": status,
-                                            "body_class": bname, "body": body.decode("latin1")})
+            for hname, hdrs in RESPONSE_HEADERS:
+                for status in (statuses if hdrs is None else HEADER_STATUSES):
+                    for bname, body in bodies:
+                        resp = httpx.Response(status, content=body, headers=hdrs)
+                        ref = reference(status, body)
+                        obs = observe(lambda: c.get_data(resp), exc_mod)
+                        cells += 1
+                        outcomes.add((status_class(status), bname, ref[0]))
+                        why = compare(ref, obs, resp)
+                        if why:
+                            rep.violation("get_data_outcome", [f"client:{kind}", f"body:{bname}", f"status:{status_class(status)}"] + ([f"response_header:{hname}"] if hdrs else []),
+                                          why, {"part": "get_data", "client": kind, "tracer": tv, "status": status, "response_headers": hdrs,
+                                                "body_class": bname, "body": body.decode("latin1")})
     return cells, outcomes
 
 
@@ -167,14 +200,16 @@ def part_b_case(case):
         mod, mods = genpkg.import_package(d, pkg)
         exc_mod = mods["exceptions"]
         is_async = clients.BUNDLED[kind][2]
-        for (mname, mkw), status in [(m, s_) for m in METHODS for s_ in (statuses if m[0] == "get_a" else statuses[2:5])]:
+        plan = [(m, s_, None) for m in METHODS for s_ in (statuses if m[0] == "get_a" else statuses[2:5])]
+        plan += [(METHODS[0], s_, h) for s_ in HEADER_STATUSES if s_ in statuses or len(statuses) > 1 for _, h in RESPONSE_HEADERS[1:]]
+        for (mname, mkw), status, hdrs in plan:
             Model = {"get_a": mod.GetA, "get_b": mod.GetB, "set_c": mod.SetC}[mname]
             for bname, body in body_classes():
                 sent = {}
 
-                def handler(request, status=status, body=body):
+                def handler(request, status=status, body=body, hdrs=hdrs):
                     sent["n"] = sent.get("n", 0) + 1
-                    return httpx.Response(status, content=body)
+                    return httpx.Response(status, content=body, headers=hdrs)
 
                 c = clients.make_client(mod.Client, is_async, handler, **clients.tracer_kwargs(kind, tv))
                 ref = reference(status, body)
@@ -197,7 +232,7 @@ def part_b_case(case):
                 if sent.get("n") != 1:
                     why = (why or "") + f" requests sent: {sent.get('n')}"
                 if why:
-                    out["violations"].append((bname, status, f"{mname}: {why}", body.decode("latin1")))
+                    out["violations"].append((bname, status, f"{mname}: {why}" + (f" [response headers {hdrs}]" if hdrs else ""), body.decode("latin1")))
     return out
 
 
@@ -244,7 +279,7 @@ def replay(path):
         kind = case["client"]
         cls = clients.bundled_class(kind)
         c = clients.make_client(cls, clients.BUNDLED[kind][2], lambda r: httpx.Response(500), **clients.tracer_kwargs(kind, case["tracer"]))
-        resp = httpx.Response(case["status"], content=body)
+        resp = httpx.Response(case["status"], content=body, headers=case.get("response_headers"))
         ref = reference(case["status"], body)
         obs = observe(lambda: c.get_data(resp), exc_mod)
         print("reference:", ref[:2], "observed:", obs[:2], "->", compare(ref, obs, resp))
